@@ -160,7 +160,7 @@ let oracle (_ : string list) : string = "-"
 
 let is_meta s =
   let pre p = String.length s >= String.length p && String.sub s 0 (String.length p) = p in
-  pre "pyd=" || pre "pym=" || pre "X:" || pre "T:" || pre "pre=" || pre "E="
+  pre "pyd=" || pre "pym=" || pre "X:" || pre "T:" || pre "pre=" || pre "E=" || pre "V="
 
 let () = run_lines (fun f0 ->
   let pyd = field "pyd=" f0 and pym = field "pym=" f0 in
